@@ -157,10 +157,15 @@ def classify_restore(stmt: ast.stmt, tokvars: Dict[str, Tuple[str, str, bool]]) 
             return f"FEndPatch ({T.coq_str(m)}, {T.coq_str(a)})"
         if nm == "sys.path.remove" and test is not None and test.endswith("in sys.path"):
             return "FPathRemove"
+        if nm == "logging.captureWarnings" and test == "capturing_started" and len(c.args) == 1 \
+                and isinstance(c.args[0], ast.Constant) and c.args[0].value is False:
+            return "FUncapture"
         if nm == "sys.meta_path.remove" and test is None:
             return "FMetaRemove"
         if nm in ("LOG.warning", "LOG.debug", "LOG.info"):
             return None
+    if isinstance(inner, ast.Assign) and test is None and ast.unparse(inner) == "sys.path[:] = saved_sys_path":
+        return "FPathRestore"
     if isinstance(inner, ast.Assign) and test == "old_cythonize is not None" \
             and ast.unparse(inner) == "Cython.Build.cythonize = old_cythonize":
         return "FCython"
@@ -274,9 +279,28 @@ def read_source() -> Dict[str, object]:
         if is_call_to(n, "begin_patch"):
             raise TranslateError("begin_patch inside `with patches:`")
     cw = [n for n in own_nodes(g) if isinstance(n, ast.Call) and call_name(n) == "logging.captureWarnings"]
-    if len(cw) > 1 or (cw and not (len(cw[0].args) == 1 and isinstance(cw[0].args[0], ast.Constant))):
+    if any(not (len(n.args) == 1 and isinstance(n.args[0], ast.Constant)) for n in cw):
         raise TranslateError("captureWarnings call with an unrecognised shape")
-    out["captures_warnings"] = bool(cw) and cw[0].args[0].value is True
+    on = [n for n in cw if n.args[0].value is True]
+    off = [n for n in cw if n.args[0].value is False]
+    if len(on) > 1 or len(off) > 1 or len(on) + len(off) != len(cw):
+        raise TranslateError("captureWarnings calls the reader does not know")
+    out["captures_warnings"] = bool(on)
+    # old_showwarning = warnings.showwarning ; captureWarnings(True) ; capturing_started = ... is not old_showwarning
+    top = [ast.unparse(x) for x in g.body if isinstance(x, (ast.Assign, ast.Expr))]
+    try:
+        i0 = top.index("old_showwarning = warnings.showwarning")
+        out["capture_started_recorded"] = (top[i0 + 1] == "logging.captureWarnings(True)"
+                                           and top[i0 + 2] == "capturing_started = warnings.showwarning is not old_showwarning")
+    except (ValueError, IndexError):
+        out["capture_started_recorded"] = False
+    for name in ("capturing_started", "old_showwarning", "saved_sys_path"):
+        n_asg = sum(1 for n in ast.walk(g) if isinstance(n, ast.Name) and n.id == name and isinstance(n.ctx, ast.Store))
+        if n_asg > 1:
+            raise TranslateError(name + " is assigned more than once")
+    # saved_sys_path = list(sys.path) immediately before `with patches:`
+    idx = g.body.index(w2)
+    out["path_saved_before_with"] = idx > 0 and ast.unparse(g.body[idx - 1]) == "saved_sys_path = list(sys.path)"
     # numpy / Cython fakes
     src_g = ast.unparse(g)
     out["numpy_fakes"] = [k for k in ("numpy", "numpy.distutils", "numpy.distutils.core", "numpy.distutils.misc_util",
@@ -339,10 +363,18 @@ def read_patch_py() -> Dict[str, object]:
         and "tokens.append(begin_patch(module, member, new_value))" in ast.unparse(fors[0]))
     e = T.func(mod, "end_patch")
     src = ast.unparse(e)
-    out["end_patch_none_deletes"] = "if old_member is None:\n        delattr(module, member)\n    else:\n        setattr(module, member, old_member)" in src
+    out["end_patch_missing_deletes_if_present"] = (
+        "if old_member is _MISSING:\n        if hasattr(module, member):\n            delattr(module, member)\n"
+        "    else:\n        setattr(module, member, old_member)" in src)
     b = T.func(mod, "begin_patch")
     srcb = ast.unparse(b)
-    out["begin_patch_absent_is_none"] = "if not hasattr(module, member):\n        old_member = None" in srcb
+    out["begin_patch_absent_is_missing"] = (
+        "old_member = getattr(module, member, _MISSING)\n    setattr(module, member, new_value)\n"
+        "    return (module, member, old_member)" in srcb)
+    try:
+        out["missing_is_private_sentinel"] = ast.unparse(T.module_const(mod, "_MISSING")) == "object()"
+    except TranslateError:
+        out["missing_is_private_sentinel"] = False
     out["begin_patch_unloaded_no_token"] = "if module not in sys.modules:\n            return None" in srcb
     return out
 
@@ -414,7 +446,7 @@ def gen_c13_consts() -> str:
     body += "From Coq Require Import List String Bool.\nImport ListNotations.\nOpen Scope string_scope.\n"
     body += "(* what the third argument of a triple evaluates to *)\nInductive newkind := NFresh | NCopy | NSame.\n"
     body += "Record pspec := mkP { p_mod : string; p_attr : string; p_byname : bool; p_new : newkind }.\n"
-    body += "Inductive fstep := FCython | FPathRemove | FEndPatch (k : string * string) | FMetaRemove | FPurgeModules.\n"
+    body += "Inductive fstep := FCython | FPathRemove | FPathRestore | FUncapture | FEndPatch (k : string * string) | FMetaRemove | FPurgeModules.\n"
     body += "Definition outer_patched : list pspec :=\n  " + T.coq_list([pspec(x, k) for x, k in zip(s["outer"], s["outer_new"])]) + ".\n"
     body += "Definition begin_patched : list (pspec * bool) :=\n  " + T.coq_list([f"({pspec(x, k)}, {b(g)})" for (x, g), k in zip(s["begins"], s["begins_new"])]) + ".\n"
     body += "Definition inner_patched : list pspec :=\n  " + T.coq_list([pspec(x, k) for x, k in zip(s["inner"], s["inner_new"])]).replace("; ", ";\n   ") + ".\n"
@@ -423,11 +455,12 @@ def gen_c13_consts() -> str:
     body += "Definition numpy_fakes : list string := " + T.coq_list([T.coq_str(x) for x in s["numpy_fakes"]]) + ".\n"
     body += "Definition cython_fakes : list string := " + T.coq_list([T.coq_str(x) for x in s["cython_fakes"]]) + ".\n"
     for k in ("outer_with_covers_parse", "exec_in_try", "path_insert_in_try", "catches_sysexit",
-              "meta_append_before_with", "captures_warnings"):
+              "meta_append_before_with", "captures_warnings", "capture_started_recorded", "path_saved_before_with"):
         body += f"Definition {k} : bool := {b(s[k])}.\n"
     body += f"Definition pyproject_chdir_back_in_finally : bool := {b(p['pyproject_chdir_back_in_finally'])}.\n"
-    for k in ("patch_loop_covers_all_args", "patch_yield_in_try", "patch_restores_reversed", "end_patch_none_deletes",
-              "begin_patch_absent_is_none", "begin_patch_unloaded_no_token"):
+    for k in ("patch_loop_covers_all_args", "patch_yield_in_try", "patch_restores_reversed",
+              "end_patch_missing_deletes_if_present", "begin_patch_absent_is_missing", "missing_is_private_sentinel",
+              "begin_patch_unloaded_no_token"):
         body += f"Definition {k} : bool := {b(q[k])}.\n"
     return body
 
